@@ -250,6 +250,33 @@ def run(prog):
     else:
       ok_push = any(dim(fn, cs.args[1]) == "Label" and (loopvar is None or any(
         x[0] == "index" and strip(x[2]) == loopvar for x in mir.subterms(cs.args[1]))) for cs in pushes if len(cs.args) == 2)
+    # both tables written by indexed stores (`vec![0; n]` then `tab[k] = v`): which table a store goes to is read off the
+    # VarOrder literal, and each store is typed — var_to_pos[Label] = Level, pos_to_var[Level] = Label
+    r_ = strip(te.ret)
+    tabs_ = {}
+    if r_[0] == "agg" and len(r_) > 5 and r_[5]:
+        for nm_, op_ in zip(r_[5], r_[4]):
+            o_ = strip(op_)
+            if nm_ in ("var_to_pos", "pos_to_var") and o_[0] in ("mu", "local", "mutref"):
+                tabs_[o_[2] if o_[0] == "mu" else o_[1]] = nm_
+    for (bb, pt, val, line) in st:
+        recv = strip(pt[1] if pt[0] == "index" else pt[2][0])
+        while isinstance(recv, tuple) and recv and recv[0] in ("ref", "deref"):
+            recv = strip(recv[1])
+        which_ = None
+        for x in [recv] + list(mir.subterms(recv)):
+            if isinstance(x, tuple) and len(x) >= 2 and x[0] in ("mutref", "local", "mu") and (x[2] if x[0] == "mu" else x[1]) in tabs_:
+                which_ = tabs_[x[2] if x[0] == "mu" else x[1]]
+        if which_ != "pos_to_var":
+            continue
+        idx_ = pt[2] if pt[0] == "index" else pt[2][1]
+        di, dv = dim(fn, idx_), dim(fn, val)
+        if di == "Level" and dv == "Label":
+            ok_push = True
+        elif di == "Label" and dv == "Level":
+            errs.append("pos_to_var is written at a label with a position (pos_to_var[label_i] = i): it becomes a copy of "
+                        "var_to_pos instead of its inverse, and var_at_level returns positions")
+            ok_push = True
     if not ok_store:
         swapped = [s_ for s_ in st if dim(fn, (s_[1][2] if s_[1][0] == "index" else s_[1][2][1])) != "Label" and dim(fn, s_[2]) == "Label"]
         errs.append("var_to_pos is written at a position with a label (var_to_pos[i] = order[i]): it becomes a copy of "
